@@ -18,12 +18,14 @@ def run(ctx):
     cfgs = [c["cfg"] for _n, c in cfgs]
     if len(cfgs) != 1536:
         raise Inconclusive("expected 1536 configurations, got %d" % len(cfgs))
-    reps = 6 if quick else 60
+    reps = 6 if quick else 300
     scen = []
     for i in range(0, len(cfgs), 64):
         scen.append({"id": "cfg%d" % (i // 64), "kind": "cfgs", "cfgs": cfgs[i:i + 64], "reps": reps, "seed": ctx.seed * 1000 + i})
-    scen.append({"id": "bind", "kind": "bind", "reps": 30 if quick else 300, "seed": ctx.seed})
-    scen.append({"id": "kdf", "kind": "kdf", "reps": 30 if quick else 300, "seed": ctx.seed})
+    scen.append({"id": "bind", "kind": "bind", "reps": 30 if quick else 2000, "seed": ctx.seed})
+    for k in range(2 if quick else 8):
+        scen.append({"id": "concurrent%d" % k, "kind": "concurrent", "reps": 4000 if quick else 30000, "seed": ctx.seed * 31 + k})
+    scen.append({"id": "kdf", "kind": "kdf", "reps": 30 if quick else 2000, "seed": ctx.seed})
     binary = ctx.go_build("./cmd/c08")
     traces = ctx.exec_scenarios(binary, scen, "c08", shards=12, timeout=1500)
     if len(traces) != len(scen) and not any(t.get("crashed") for t in traces):
